@@ -361,6 +361,22 @@ func (ev *enumEval) eval(fr *frame, v ssa.Value) (any, bool) {
 				return li + ri, true
 			case token.SUB:
 				return li - ri, true
+			case token.AND:
+				return li & ri, true
+			case token.OR:
+				return li | ri, true
+			case token.XOR:
+				return li ^ ri, true
+			case token.AND_NOT:
+				return li &^ ri, true
+			case token.SHL:
+				if ri >= 0 && ri < 63 {
+					return li << uint(ri), true
+				}
+			case token.SHR:
+				if ri >= 0 && ri < 63 {
+					return li >> uint(ri), true
+				}
 			}
 		}
 		lb, lok2 := l.(bool)
